@@ -190,6 +190,9 @@ def run(chk: Check, model):
             f"{len(rb)} replace_buffer call(s) in _run_generation; expected one, after the slot loop, on the generation's input state", chk.loc(f_gen))
 
     rule_sizes(chk, model, "C08.sizes")
+    # a producer slot must have written before a later slot of the same partition reads: slots run in generation order
+    from .c07 import rule_exec_order
+    rule_exec_order(chk, model, "C08.order", cv)
 
 
 def rule_sizes(chk: Check, model, rid: str):
